@@ -246,6 +246,43 @@ Proof.
   apply own_inv_post; [exact M1 | cbn; intros e0 E0; exfalso; eapply M2; exact E0].
 Qed.
 
+(* ---------- the operation of a node never changes ---------- *)
+Lemma n_op_grd_return nd cs : n_op (grd_return nd cs) = n_op nd.
+Proof.
+  unfold grd_return. destruct (n_op nd) eqn:E; repeat match goal with
+    | |- context [match ?x with _ => _ end] => destruct x
+    end; cbn; auto.
+Qed.
+Lemma n_op_grd_reload nd lc : n_op (grd_reload nd lc) = n_op nd.
+Proof. unfold grd_reload. destruct (5 <=? lc)%nat; reflexivity. Qed.
+Lemma n_op_load_reload nd la : n_op (load_reload nd la) = n_op nd.
+Proof. unfold load_reload. destruct (5 <=? la)%nat; reflexivity. Qed.
+Lemma n_op_main_retry nd : n_op (main_retry nd) = n_op nd.
+Proof. unfold main_retry. destruct (max_att (n_op nd) <=? n_att nd)%nat; reflexivity. Qed.
+Lemma n_op_load_iter nd la rest acc pick : n_op (load_iter nd la rest acc pick) = n_op nd.
+Proof.
+  unfold load_iter. destruct rest; [reflexivity|].
+  destruct (aget (sn_reg (n_reg nd)) (choose pick (n :: rest))); reflexivity.
+Qed.
+Lemma n_op_gdc_ok nd c d cs pick : n_op (gdc_ok nd c d cs pick) = n_op nd.
+Proof. destruct c; cbn; [apply n_op_grd_return | apply n_op_load_iter]. Qed.
+Lemma n_op_gdc_reload nd c : n_op (gdc_reload nd c) = n_op nd.
+Proof. destruct c; cbn; [apply n_op_grd_reload | apply n_op_load_reload]. Qed.
+
+Lemma do_step_op st nd ex pk st' nd' b : do_step st nd ex pk = (st', nd', b) -> n_op nd' = n_op nd.
+Proof.
+  unfold do_step. intros H.
+  destruct (n_pc nd);
+    repeat match type of H with
+    | context [match ?x with _ => _ end] => destruct x eqn:?
+    | context [if ?x then _ else _] => destruct x eqn:?
+    end; injection H as <- <- <-;
+    rewrite ?n_op_grd_return, ?n_op_gdc_ok, ?n_op_gdc_reload, ?n_op_grd_reload, ?n_op_load_reload,
+            ?n_op_main_retry, ?n_op_load_iter; cbn;
+    rewrite ?n_op_grd_return, ?n_op_gdc_ok, ?n_op_gdc_reload, ?n_op_grd_reload, ?n_op_load_reload,
+            ?n_op_main_retry, ?n_op_load_iter; first [reflexivity | congruence].
+Qed.
+
 (* ---------- lifting to systems ---------- *)
 Definition NodesInv (P : node -> Prop) (w : world) : Prop := Forall P (w_nodes w).
 
